@@ -108,6 +108,8 @@ def show(t, depth=0) -> str:
         return repr(t)
     k = t[0]
     d = depth + 1
+    if not isinstance(k, str):
+        return "(" + ", ".join(show(a, d) if isinstance(a, tuple) else repr(a) for a in t) + ")"
     if k == "k":
         return repr(t[1])
     if k == "sym":
